@@ -57,6 +57,32 @@ Example C13_name_example :
   = Ok (vertical_prefix ++ [84; 105; 116; 108; 101; 32; 51]%N).
 Proof. vm_compute. reflexivity. Qed.
 
+(** clone_placeholder on ANY tree (also a slide that was edited since): one shape appended, same
+    key, a name and an id used nowhere in the part; it fails only for a type without base name *)
+Theorem C13_clone_placeholder : forall c k t p t',
+  clone_placeholder c k t p = Ok t' ->
+  exists s, t' = t ++ [s] /\ cloned c p s /\
+            ~ In (s_name s) (tree_names k t) /\ ~ In (s_id s) (tree_ids k t) /\
+            s_id s = (max_id k t + 1)%N /\ has_key (ph_type p) (base_table c k) = true.
+Proof. exact clone_placeholder_ok. Qed.
+Print Assumptions C13_clone_placeholder.
+
+Theorem C13_clone_placeholder_err : forall c k t p e,
+  clone_placeholder c k t p = Err e -> e = KeyErr /\ has_key (ph_type p) (base_table c k) = false.
+Proof. exact clone_placeholder_err. Qed.
+Print Assumptions C13_clone_placeholder_err.
+
+Example C13_clone_example :
+  exists t', clone_placeholder gen_cfg KSlide
+    [mk_shape 2%N [84; 105; 116; 108; 101; 32; 51]%N None None None true;
+     mk_shape 4%N [84; 105; 116; 108; 101; 32; 52]%N None None None true;
+     mk_shape 3%N [84; 105; 116; 108; 101; 32; 53]%N None None None true]
+    (mk_ph (Some 3%N) None None None) = Ok t' /\
+  map s_name t' = [[84; 105; 116; 108; 101; 32; 51]; [84; 105; 116; 108; 101; 32; 52];
+                   [84; 105; 116; 108; 101; 32; 53]; [84; 105; 116; 108; 101; 32; 54]]%N /\
+  map s_id t' = [2; 4; 3; 5]%N.
+Proof. eexists. vm_compute. repeat split; reflexivity. Qed.
+
 (** ** mirror: one placeholder per non-latent layout placeholder, same key, same order,
        nothing else on the slide, names (and ids) unique, no own geometry, txBody by table *)
 Theorem C13_mirror : forall c d l d',
